@@ -9,7 +9,10 @@ import (
 	"fmt"
 	"math/rand"
 	"os"
+	"strconv"
 	"strings"
+	"sync"
+	"sync/atomic"
 )
 
 // A handler runs one case and returns the observation (an association list).
@@ -51,7 +54,62 @@ func runCase(h handler, c *Sexp) (obs *Sexp) {
 	return h(c)
 }
 
+// runParallel (worker -par K): all cases are read first, then K goroutines run them concurrently (each
+// case on its own trees), and the observations are printed in input order.  Calls on different
+// trees must not influence one another; the judge decides every observation as in a sequential run.
+func runParallel(k int) {
+	in := bufio.NewReaderSize(os.Stdin, 1<<20)
+	var lines [][]string
+	for {
+		line, err := in.ReadString('\n')
+		if parts := strings.SplitN(strings.TrimRight(line, "\n"), "\t", 3); len(parts) == 3 {
+			lines = append(lines, parts)
+		}
+		if err != nil {
+			break
+		}
+	}
+	obs := make([]*Sexp, len(lines))
+	var next int64 = -1
+	var wg sync.WaitGroup
+	for g := 0; g < k; g++ {
+		wg.Add(1)
+		go func() {
+			defer wg.Done()
+			for {
+				i := int(atomic.AddInt64(&next, 1))
+				if i >= len(lines) {
+					return
+				}
+				parts := lines[i]
+				if h, ok := handlers[parts[0]]; !ok {
+					obs[i] = L(KV("panic", A("no handler for "+parts[0])))
+				} else if c, perr := ParseSexp(parts[2]); perr != nil {
+					obs[i] = L(KV("panic", A("bad case: "+perr.Error())))
+				} else {
+					obs[i] = runCase(h, c)
+				}
+			}
+		}()
+	}
+	wg.Wait()
+	out := bufio.NewWriterSize(os.Stdout, 1<<20)
+	defer out.Flush()
+	for i, parts := range lines {
+		out.WriteString(parts[1])
+		out.WriteByte('\t')
+		out.WriteString(obs[i].String())
+		out.WriteByte('\n')
+	}
+}
+
 func main() {
+	if len(os.Args) == 3 && os.Args[1] == "-par" {
+		if k, err := strconv.Atoi(os.Args[2]); err == nil && k > 1 {
+			runParallel(k)
+			return
+		}
+	}
 	in := bufio.NewReaderSize(os.Stdin, 1<<20)
 	out := bufio.NewWriterSize(os.Stdout, 1<<20)
 	defer out.Flush()
